@@ -239,7 +239,14 @@ def x_corpus(rnd, n, shipped):
 
 
 def odd_asm_forms():
-    return list(_ODD_ASM)
+    kws = ["LDAM", "LDBM", "STAM", "LDAC", "LDBC", "LDAP", "LDAI", "LDBI", "STAI", "BR", "BRZ", "BRN", "OPR", "DATA", "FUNC", "PROC",
+           "BRB", "ADD", "SUB", "SVC"]
+    extra = []
+    for k in kws:
+        extra.append("LDAC 1\nLDAC 2\nOPR %s\nLDAC 3\n" % k)          # an OPR operand of every keyword, after code that assembles
+        extra.append("x\nDATA 1\n%s %s\n" % (k, k))
+        extra.append("FUNC %s\nLDAC 1\nBR %s\n" % (k, k))
+    return list(_ODD_ASM) + extra
 
 
 def odd_asm(rnd):
